@@ -27,6 +27,9 @@ REQUIRED_THEOREMS = [
     "field_attr_roundtrip", "collection_attr_roundtrip", "collection_fromData_roundtrip",
     "slices_offsets_prefix_sums", "slices_disjoint", "slices_cover",
     "cyl_state_old_not_injective", "fromData_numAxes_misplaces",
+    "mkUnit_valid", "mkCartesian_valid", "mkRadial_valid", "mkCylindrical_valid", "classFromState_valid",
+    "fromState_valid", "constructed_grid_roundtrips", "restored_grid_roundtrips", "copy_valid",
+    "valid_cartesian", "valid_polar", "valid_spherical", "valid_cylindrical",
 ]
 RULE = ("random grids of every class (UnitGrid, CartesianGrid 1-3d, PolarSymGrid, SphericalSymGrid, "
         "CylindricalSymGrid; 1..40 cells, dyadic and decimal bounds, negative/tiny/huge scales, reversed and "
@@ -47,6 +50,10 @@ ASSUMPTIONS = [
     "sizes are generated)",
     "derived quantities (axes_coords, cell_volumes) are C12's model functions; compared at 1e-12 / 1e-11 of the "
     "natural scale (exactly on the dyadic stream where the real computation is exact)",
+    "the theorems use lo + (hi - lo) = hi (true in a field); that the IEEE bound pos (+) size survives a second "
+    "pass through Cuboid is carried by the bit-exact Float replay and by the monitor (identical bounds on every "
+    "route), not by a theorem (no counterexample in 1.2e8 adversarial float pairs)",
+    "pickle and the axes names are not modelled: monitored on the real objects only",
 ]
 TRUSTED_EXTRA = ["IEEE double arithmetic of Lean's Float equals numpy's float64 for + - (bounds of the cuboid)"]
 
@@ -552,7 +559,9 @@ def leg_grid(ctx, P, spec, geometry=True):
         ctx.monitor_evals += 1
         bad = grid_identical(g, h)
         if bad is None and h is g:
-            bad = "returned the very same object"
+            # C14 asks for "a grid equal to the original": a route that hands back the very same (immutable)
+            # object satisfies it; only recorded in the evidence
+            ctx.hist("route-returned-the-same-object", name)
         if bad:
             ctx.monitor_fail("grid", dict(case, route=name), {"problem": bad, "original": rec_of(g),
                              "restored": None if isinstance(h, Exception) else rec_of(h)},
@@ -736,8 +745,9 @@ def fix_style(s):
     return s
 
 
-def leg_equality(ctx, P, spec, rng):
-    kind, other = perturb(rng, spec)
+def leg_equality(ctx, P, spec, rng, pair=None):
+    """`pair = (kind, other)`: the recorded second specification (replay); otherwise drawn from `rng`"""
+    kind, other = pair if pair is not None else perturb(rng, spec)
     if mode_of(other) != mode_of(spec):
         return
     g, h = build(spec), build(other)
@@ -878,20 +888,26 @@ def plain(v):
     return v
 
 
-def leg_malformed_grid(ctx, P, spec, rng, n=2):
+def leg_malformed_grid(ctx, P, spec, rng, n=2, fixed=None):
+    """`fixed = [(kind, tree, via)]`: the recorded tampered trees (replay); otherwise drawn from `rng`"""
     from pde.grids.base import GridBase
     g = build(spec)
     mode = mode_of(spec)
     enc = q if mode == "Q" else fbits
     state = plain(g.state)
-    for kind in rng.sample(GRID_TAMPERS, len(GRID_TAMPERS))[: n + 6]:
-        d = tamper_state(rng, spec, state, kind)
-        if d is None:
-            continue
-        n -= 1
-        if n < 0:
-            break
-        via = rng.choice(["json", "dict"])
+    plan = []
+    if fixed is not None:
+        plan = list(fixed)
+    else:
+        for kind in rng.sample(GRID_TAMPERS, len(GRID_TAMPERS))[: n + 6]:
+            d = tamper_state(rng, spec, state, kind)
+            if d is None:
+                continue
+            n -= 1
+            if n < 0:
+                break
+            plan.append((kind, d, rng.choice(["json", "dict"])))
+    for kind, d, via in plan:
         case = {"leg": "malformed-grid", "grid": spec, "tamper": kind, "tree": d, "via": via}
         ctx.count(case, nontrivial=False, leg="malformed-grid")
         ctx.hist("malformed-grid", kind)
@@ -1193,17 +1209,20 @@ def py_to_tree(v, enc):
     return {"o": [[k, py_to_tree(e, enc)] for k, e in v.items()]}
 
 
-def leg_malformed_field(ctx, P, fs, rng, salt, n=2):
+def leg_malformed_field(ctx, P, fs, rng, salt, n=2, fixed=None):
+    """`fixed = [(kind, tam)]`: the recorded tamperings (replay); otherwise drawn from `rng`"""
     from pde.fields.base import FieldBase
     g = build(fs["grid"])
     f = build_field(fs, g, salt)
     mode = mode_of(fs["grid"])
     enc = q if mode == "Q" else fbits
     flat = np.array(f.data).ravel()
-    for kind in rng.sample(FIELD_TAMPERS, n):
+    for kind, tam_fixed in (fixed if fixed is not None else [(k, None) for k in rng.sample(FIELD_TAMPERS, n)]):
         attrs = dict(f.attributes_serialized)
         tam, ndata = None, int(flat.size)
-        if kind == "class-unknown":
+        if fixed is not None and kind not in ("data-size", "grid-class-unknown"):
+            tam = tam_fixed
+        elif kind == "class-unknown":
             tam = {"set": ["class", "NoSuchField"]}
         elif kind == "class-abstract":
             tam = {"set": ["class", "FieldBase"]}
@@ -1237,7 +1256,7 @@ def leg_malformed_field(ctx, P, fs, rng, salt, n=2):
         data = np.array(flat) if ndata == flat.size else np.arange(ndata, dtype=float)
         if ndata == flat.size:
             data = data.reshape(f.data.shape)
-        case = {"leg": "malformed-field", "field": fs, "salt": salt, "tamper": kind}
+        case = {"leg": "malformed-field", "field": fs, "salt": salt, "tamper": kind, "tam": tam}
         ctx.count(case, nontrivial=False, leg="malformed-field")
         ctx.hist("malformed-field", kind)
         try:
@@ -1460,16 +1479,19 @@ def leg_collection(ctx, P, cs, salt):
 COLL_TAMPERS = ["no-fields", "drop-fields", "data-size", "extra-key", "class-other", "field-class-unknown", "dtype-unknown"]
 
 
-def leg_malformed_collection(ctx, P, cs, rng, salt):
+def leg_malformed_collection(ctx, P, cs, rng, salt, fixed=None):
+    """`fixed = (kind, tam)`: the recorded tampering (replay); otherwise drawn from `rng`"""
     from pde.fields.base import FieldBase
     c = build_collection(cs, salt)
     mode = mode_of(cs["grid"])
     enc = q if mode == "Q" else fbits
     flat = np.array(c.data).ravel()
-    kind = rng.choice(COLL_TAMPERS)
+    kind = fixed[0] if fixed is not None else rng.choice(COLL_TAMPERS)
     attrs = dict(c.attributes_serialized)
     tam, ndata = None, int(flat.size)
-    if kind == "no-fields":
+    if fixed is not None and kind not in ("data-size", "field-class-unknown"):
+        tam = fixed[1]
+    elif kind == "no-fields":
         tam = {"set": ["fields", []]}
     elif kind == "drop-fields":
         tam = {"drop": "fields"}
@@ -1492,7 +1514,7 @@ def leg_malformed_collection(ctx, P, cs, rng, salt):
         fl[-1]["class"] = json.dumps("NoSuchField")
         attrs["fields"] = json.dumps(fl)
     data = np.array(c.data) if ndata == flat.size else np.arange(ndata, dtype=float)
-    case = {"leg": "malformed-collection", "collection": cs, "salt": salt, "tamper": kind}
+    case = {"leg": "malformed-collection", "collection": cs, "salt": salt, "tamper": kind, "tam": tam}
     ctx.count(case, nontrivial=False, leg="malformed-collection")
     ctx.hist("malformed-collection", kind)
     try:
@@ -1601,7 +1623,20 @@ def leg_fromdata(ctx, P, fd, salt):
     bad = None
     valid = (slice(None),) + tuple(slice(1, -1) for _ in g.shape) if fd["with_ghost"] else (slice(None),)
     if fd.get("drop"):
-        pass
+        # a short array (malformed stream): the statement cannot hold for the missing components; what is judged is
+        # that every component array that IS present lands in its own place (never in another field or component)
+        if not isinstance(c, Exception):
+            start = 0
+            for k, (f, cl) in enumerate(zip(c, classes)):
+                ncmp = g.dim ** cl.rank
+                have = comps_of(f, fd["with_ghost"])
+                for j in range(max(0, min(ncmp, data.shape[0] - start, len(have)))):
+                    if have[j].shape != data[start + j].shape or not np.array_equal(have[j], data[start + j]):
+                        bad = f"short array: component {j} of field {k} is not array {start + j}"
+                        break
+                if bad:
+                    break
+                start += ncmp
     elif isinstance(c, Exception):
         bad = f"raised {exc_name(c)}: {c}"
     else:
@@ -1715,9 +1750,11 @@ def leg_fromdata(ctx, P, fd, salt):
 
 
 # ------------------------------------------------------------------------------------------
-def _guard(ctx, leg, spec, fn):
+def _guard(ctx, leg, spec, fn, extra=None):
     """run one leg; an exception raised *inside the real code* on a valid input is a failure of the
-    property on that input (reported with the input), one raised by the harness is a broken check"""
+    property on that input (reported with the whole input of the leg: `extra` holds what the leg
+    needs besides the grid, so that the crash can be replayed), one raised by the harness is a
+    broken check"""
     import traceback
     from harness.common import paths
     try:
@@ -1729,12 +1766,14 @@ def _guard(ctx, leg, spec, fn):
         if not inside and not any(f.filename.startswith(paths.REPO + "/pde") for f in tb):
             raise
         case = {"leg": leg, "grid": spec}
+        case.update(extra or {})
+        case["crash"] = True
         ctx.count(case, nontrivial=False, leg="crash")
         ctx.monitor_evals += 1
         where = next((f for f in reversed(tb) if f.filename.startswith(paths.REPO)), tb[-1])
         ctx.monitor_fail(leg, case, f"{exc_name(e)}: {e} at {where.filename}:{where.lineno}",
                          "no exception on a valid object", f"{(spec or {}).get('cls')}: real code raised in leg {leg}",
-                         key={"grid_class": (spec or {}).get("cls"), "leg": leg})
+                         key={"grid_class": (spec or {}).get("cls"), "leg": leg, "symptom": "raises"})
         return None
 
 
@@ -1778,7 +1817,9 @@ def grid_legs(ctx, P, spec, rng):
     if _guard(ctx, "construct", spec, lambda: build(spec)) is None:
         return False
     _guard(ctx, "grid", spec, lambda: leg_grid(ctx, P, spec))
-    _guard(ctx, "equality", spec, lambda: leg_equality(ctx, P, spec, rng))
+    kind, other = perturb(rng, spec)      # harness code only: drawn outside the guard so that a crash records the pair
+    _guard(ctx, "equality", spec, lambda: leg_equality(ctx, P, spec, rng, pair=(kind, other)),
+           extra={"other": other, "kind": kind})
     _guard(ctx, "malformed-grid", spec, lambda: leg_malformed_grid(ctx, P, spec, rng))
     return True
 
@@ -1805,19 +1846,24 @@ def field_legs(ctx, P, spec, rng):
         return
     salt = rng.randrange(8)
     fs = gen_field(rng, sspec)
-    _guard(ctx, "field", sspec, lambda: leg_field(ctx, P, fs, salt))
+    # (a crash inside a malformed-* leg can only come from building the valid object or from its
+    # attributes_serialized - the tampered call itself is inside try/except -, so the field/collection
+    # specification is the whole input of the crash)
+    _guard(ctx, "field", sspec, lambda: leg_field(ctx, P, fs, salt), extra={"field": fs, "salt": salt})
     if rng.random() < 0.5:
-        _guard(ctx, "malformed-field", sspec, lambda: leg_malformed_field(ctx, P, fs, rng, salt))
+        _guard(ctx, "malformed-field", sspec, lambda: leg_malformed_field(ctx, P, fs, rng, salt),
+               extra={"field": fs, "salt": salt})
     cs = gen_collection(rng, sspec)
-    _guard(ctx, "collection", sspec, lambda: leg_collection(ctx, P, cs, salt))
+    _guard(ctx, "collection", sspec, lambda: leg_collection(ctx, P, cs, salt), extra={"collection": cs, "salt": salt})
     if rng.random() < 0.3:
-        _guard(ctx, "malformed-collection", sspec, lambda: leg_malformed_collection(ctx, P, cs, rng, salt))
+        _guard(ctx, "malformed-collection", sspec, lambda: leg_malformed_collection(ctx, P, cs, rng, salt),
+               extra={"collection": cs, "salt": salt})
     fd = gen_fromdata(rng, sspec)
-    _guard(ctx, "fromdata", sspec, lambda: leg_fromdata(ctx, P, fd, salt))
+    _guard(ctx, "fromdata", sspec, lambda: leg_fromdata(ctx, P, fd, salt), extra={"fromdata": fd, "salt": salt})
     if rng.random() < 0.2:
         fd2 = dict(fd, drop=rng.choice([1, 1, 2]), labels=None)
         if sum(build(sspec).dim ** RANK[c] for c in fd2["classes"]) > fd2["drop"]:
-            _guard(ctx, "fromdata", sspec, lambda: leg_fromdata(ctx, P, fd2, salt))
+            _guard(ctx, "fromdata", sspec, lambda: leg_fromdata(ctx, P, fd2, salt), extra={"fromdata": fd2, "salt": salt})
 
 
 def run(ctx):
@@ -1834,7 +1880,7 @@ def run(ctx):
         spec = next(s for s in REGRESSION_GRIDS if s["cls"] == cls)
         sspec = small(spec, rng)
         fd = dict(fd, grid=sspec)
-        _guard(ctx, "fromdata", sspec, lambda: leg_fromdata(ctx, P, fd, 1))
+        _guard(ctx, "fromdata", sspec, lambda: leg_fromdata(ctx, P, fd, 1), extra={"fromdata": fd, "salt": 1})
     for i in range(n_grids):
         cls = CLASSES[i % len(CLASSES)]
         mode = "dyadic" if rng.random() < 0.5 else "decimal"
@@ -1850,6 +1896,13 @@ def run(ctx):
         if (i + 1) % 1500 == 0:
             P.run()
     P.run()
+    # ---- floor on the coverage: an empty leg is a broken check, not a pass ------------------------------
+    need = ["grid", "equality", "malformed-grid", "field", "malformed-field", "collection", "malformed-collection", "fromdata"]
+    short = {k: ctx.legs.get(k, 0) for k in need if ctx.legs.get(k, 0) < (n_grids // 20 if k.startswith("malformed-") or k == "equality" else n_grids // 2)}
+    if not ctx.monitor_failures and (short or ctx.monitor_evals < 10 * n_grids or ctx.impl_traces < 3 * n_grids):
+        from harness.common.lean import BrokenCheck
+        raise BrokenCheck(f"C14 coverage floor not met: legs below their floor {short}, monitor evaluations "
+                          f"{ctx.monitor_evals}, model comparisons {ctx.impl_traces} for {n_grids} grids")
 
 
 def search(ctx, broken):
@@ -1864,8 +1917,9 @@ def search(ctx, broken):
         c = d.get("case") if isinstance(d, dict) else None
         if isinstance(c, dict):
             try:
-                _replay_case(sub, P, c, sub.rng)
-            except Exception:  # noqa: BLE001
+                _guard(sub, c.get("leg"), c.get("grid"), lambda c=c: _replay_case(sub, P, c, sub.rng),
+                       extra={k: v for k, v in c.items() if k not in ("leg", "grid")})
+            except Exception:  # noqa: BLE001  (harness-side problem with a recorded case: go on searching)
                 pass
         if sub.monitor_failures:
             return sub.monitor_failures[:1]
@@ -1882,45 +1936,88 @@ def search(ctx, broken):
     return []
 
 
+class NotReplayable(Exception):
+    pass
+
+
+def _need(c, *keys):
+    missing = [k for k in keys if k not in c]
+    if missing:
+        raise NotReplayable(f"the recorded case of leg {c.get('leg')!r} lacks {missing}")
+
+
 def _replay_case(sub, P, c, rng):
+    """re-run the RECORDED input of one case (same leg, same specification, same second grid / tampered tree /
+    tampering) on the real code; `rng` is only used by code paths that draw nothing for a recorded input"""
     leg = c.get("leg")
+    _need(c, "grid") if leg in ("grid", "construct", "equality", "malformed-grid") else None
     spec = c.get("grid")
     if leg in ("grid", "construct"):
         leg_grid(sub, P, spec, geometry=False)
     elif leg == "equality":
-        for _ in range(30):
-            leg_equality(sub, P, spec, rng)
+        _need(c, "other", "kind")
+        leg_equality(sub, P, spec, rng, pair=(c["kind"], c["other"]))
     elif leg == "malformed-grid":
-        leg_malformed_grid(sub, P, spec, rng, n=len(GRID_TAMPERS))
+        if c.get("crash"):
+            sub.monitor_evals += 1
+            build(spec).state     # the only real-code calls of this leg outside try/except
+            return
+        _need(c, "tamper", "tree", "via")
+        leg_malformed_grid(sub, P, spec, rng, fixed=[(c["tamper"], c["tree"], c["via"])])
     elif leg == "field":
+        _need(c, "field")
         leg_field(sub, P, c["field"], c.get("salt", 0))
     elif leg == "malformed-field":
-        leg_malformed_field(sub, P, c["field"], rng, c.get("salt", 0), n=len(FIELD_TAMPERS))
+        _need(c, "field")
+        if c.get("crash"):
+            sub.monitor_evals += 1
+            build_field(c["field"], build(c["field"]["grid"]), c.get("salt", 0)).attributes_serialized
+            return
+        _need(c, "tamper", "tam")
+        leg_malformed_field(sub, P, c["field"], rng, c.get("salt", 0), fixed=[(c["tamper"], c["tam"])])
     elif leg == "collection":
+        _need(c, "collection")
         leg_collection(sub, P, c["collection"], c.get("salt", 0))
     elif leg == "malformed-collection":
-        for _ in range(20):
-            leg_malformed_collection(sub, P, c["collection"], rng, c.get("salt", 0))
+        _need(c, "collection")
+        if c.get("crash"):
+            sub.monitor_evals += 1
+            build_collection(c["collection"], c.get("salt", 0)).attributes_serialized
+            return
+        _need(c, "tamper", "tam")
+        leg_malformed_collection(sub, P, c["collection"], rng, c.get("salt", 0), fixed=(c["tamper"], c["tam"]))
     elif leg == "fromdata":
+        _need(c, "fromdata")
         leg_fromdata(sub, P, c["fromdata"], c.get("salt", 0))
     else:
-        return False
-    return True
+        raise NotReplayable(f"unknown leg {leg!r}")
 
 
 def replay(ctx, rep):
-    """re-run the leg of a replay file on the real code (monitors only)"""
+    """re-run the recorded case of a replay file on the real code (monitors only) and judge it: False iff a
+    monitor still fails on the recorded input (or the file cannot be replayed, which is said explicitly)"""
     from harness.common.context import Ctx
     warnings.simplefilter("ignore", DeprecationWarning)
-    c = rep["case"]
+    warnings.simplefilter("ignore", RuntimeWarning)
+    c = rep.get("case")
+    if not isinstance(c, dict):
+        print("cannot be replayed: the file records no case")
+        return False
     sub = Ctx(ctx.pid, ctx.tier, ctx.seed, ctx.workdir)
-    if c.get("leg") not in ("grid", "construct", "equality", "malformed-grid", "field", "malformed-field", "collection",
-                            "malformed-collection", "fromdata"):
-        print("nothing to replay for leg", c.get("leg"))
+    try:
+        _guard(sub, c.get("leg"), c.get("grid"), lambda: _replay_case(sub, NoModel(), c, ctx.sub_rng("replay")),
+               extra={k: v for k, v in c.items() if k not in ("leg", "grid")})
+    except NotReplayable as e:
+        print("cannot be replayed:", e)
+        return False
+    route = c.get("route")
+    fails = sub.monitor_failures
+    for mf in fails[:4]:
+        print("monitor FAILS:", mf["what"], "route", mf["case"].get("route"), json.dumps(mf["observed"], default=str)[:600])
+    if not fails:
+        print(f"monitor: holds on the recorded input ({sub.monitor_evals} evaluations)")
         return True
-    _guard(sub, c.get("leg"), c.get("grid"), lambda: _replay_case(sub, NoModel(), c, ctx.sub_rng("replay")))
-    for mf in sub.monitor_failures[:3]:
-        print("monitor FAILS:", mf["what"], json.dumps(mf["observed"], default=str)[:600])
-    if not sub.monitor_failures:
-        print("monitor: holds")
-    return not sub.monitor_failures
+    if route is not None and all(mf["case"].get("route") != route for mf in fails):
+        print(f"note: the recorded route ({route}) no longer fails, but the property still fails on the recorded input "
+              "through the routes above")
+    return False
